@@ -167,7 +167,7 @@ impl Check for C15Check {
          variables, invoked 2-4 times in one conjunction (directly, through closures, in both clauses of a conde), x schedule \
          (leaf timing, yields, reorders) x consumer script over one Query (re-runs, up to three interleaved iterators, \
          drops): every exhausted iterator returns the reference interpreter's multiset (new variables per unfolding), a \
-         partial one a sub-multiset; or (b) one of 11 macro-written corpus relations (shadowing, sibling scopes, pattern arms \
+         partial one a sub-multiset; or (b) one of 12 macro-written corpus relations (shadowing, sibling scopes, one closure goal object solved twice, pattern arms \
          reusing names, repeated pattern variables, recursion through proto_vulcan_closure!, two live invocations) under a \
          seeded schedule: its answers equal the hand-listed expectation and its hand-renamed twin's answers. Not covered: \
          generated surface syntax (compile-time). Threads: shuttle harness in /verif/threads, reported in the same evidence \
